@@ -63,7 +63,8 @@ def gen(rng, tier):
         # extended numbering
         if meta["nsh"]:
             d2 = elfgen.patch(data, meta, "ehdr", "e_shnum", 0)
-            for v in (meta["nsh"], meta["nsh"] - 1, meta["nsh"] + 1, 0, 2**32 - 1):
+            big = (2**32, 2**32 + meta["nsh"], 2**32 + 3, 2**63, 2**64 - 1) if cl == 64 else ()
+            for v in (meta["nsh"], meta["nsh"] - 1, meta["nsh"] + 1, 0, 2**32 - 1) + big:      # counts that only fit in 64 bits
                 add_case(cases, fam, elfgen.patch(d2, meta, "shdr", "sh_size", v, 0))
             d3 = elfgen.patch(data, meta, "ehdr", "e_shstrndx", 0xffff)
             for v in (meta["shstrndx"], 0, 1, meta["nsh"], 2**32 - 1):
